@@ -190,7 +190,8 @@ func (t *Tr) instr(in ssa.Instruction) {
 	case *ssa.RunDefers:
 		t.runDefers(x)
 	case *ssa.Send:
-		// no state change in the sequential abstraction
+		// no state change in the sequential abstraction; clauses may be attached to the send
+		t.pseudoCall(x.Chan, x.X, x.Pos())
 	case *ssa.Select:
 		t.selectInstr(x)
 	case *ssa.If:
@@ -879,6 +880,12 @@ func (t *Tr) next(x *ssa.Next) {
 
 func (t *Tr) selectInstr(x *ssa.Select) {
 	c := t.c
+	for _, st := range x.States {
+		if st.Dir == types.SendOnly {
+			// (the obligation is stated for the case that this send is the one taken)
+			t.pseudoCall(st.Chan, st.Send, st.Pos)
+		}
+	}
 	tup := x.Type().(*types.Tuple)
 	idx := c.fresh(x.Name()+".idx", SInt)
 	lo := int64(0)
